@@ -146,7 +146,7 @@ def run(tier, replay=None):
         "PARTIAL: determinism of the Go generators (same design and command line => same bytes) is OBSERVED, not proved: in-process repetitions (Go randomises every map iteration) and fresh `goa` processes are compared byte for byte",
         "model GenFS/Model.v (render = SkipExist short-circuit / append + whole-file rewrite; cleanup = removal of gen's sub-directories; histories of gen, example, user writes and deletes) is hand-written from codegen/file.go and cmd/goa/gen.go and tied by running it inside Coq on every history the real tool executed",
         "theorem hypotheses all_gen_files_in_subdirs / all_example_files_skip are checked on the implementation: statically (every codegen.File literal reachable from the generators) and on the file lists the generators returned for every design of the run",
-        "map-range inventory: calls in expression position are taken to be free of effects on shared state; sort.Slice comparators are taken to be total on the collected elements; %d sites are allow-listed after inspection (translate/c09/allowlist.json, each with its reason and a fingerprint of the loop text)" % len([s for s in inv["sites"] if s.get("allow") == "inspected"]),
+        "map-range inventory: calls in expression position are taken to be free of effects on shared state; sort.Slice comparators are not trusted (collect_derived_sort needs inspection); %d sites are allow-listed after inspection (translate/c09/allowlist.json, each with its reason, a fingerprint of the loop text and the shape the rules gave at inspection time)" % len([s for s in inv["sites"] if s.get("allow") == "inspected"]),
         "iteration orders of text/template, encoding/json and yaml.v3 over maps (sorted keys) are theirs, not modelled",
         "in-process repetitions reset goa's package-level caches (eval context, service/HTTP/gRPC data, openapi.Definitions) as goa's own tests do; without the reset a second generation in one process draws other example values"],
         trusted_base=["translate/c09 (go/packages + go/types: map-range sites, shapes, File literals, reachability by static calls, ambient inputs)",
